@@ -179,6 +179,18 @@ class SetEncoder(encoder.SequenceEncoder):
         outermostTag = tagSet.superTags[-1]
         return outermostTag.tagClass, outermostTag.tagId
 
+    def _memberSortKey(self, member):
+        """Sort key of a SET member given with its declaration"""
+        component, asn1Spec, namedType = member
+
+        if (namedType and namedType.openType and
+                namedType.asn1Object.tagSet):
+            # a tagged open type field is ordered by its own tag,
+            # not by the tag of the inner value it holds
+            return self._tagSortKey(namedType.asn1Object.tagSet)
+
+        return self._componentSortKey((component, asn1Spec))
+
     def encodeValue(self, value, asn1Spec, encodeFun, **options):
 
         substrate = null
@@ -233,7 +245,7 @@ class SetEncoder(encoder.SequenceEncoder):
         # the member declaration travels with the component: the same Python
         # object may be the value of more than one member
         for comp, compType, namedType in sorted(
-                comps, key=lambda x: self._componentSortKey(x[:2])):
+                comps, key=self._memberSortKey):
 
             if namedType:
                 options.update(ifNotEmpty=namedType.isOptional)
